@@ -83,7 +83,7 @@ def judge_trnorm(ctx, api, T, out, again):
         off = abs(float(np.dot(Rn[:, 1], nrm / nn)))
         ctx.judge('trnorm', off <= TOL, dict(sig, kind='second_axis_left_plane'), lambda: '%s: new second axis is %.3g out of span{o, a}' % (what(), off))
     # a valid input is returned unchanged
-    if ref.rot_residual(R) <= 1e-15:
+    if ref.rot_residual(R) <= 1e-15 and (T.shape != (4, 4) or np.array_equal(T[3], [0, 0, 0, 1])):
         dv = md(out, T)
         ctx.judge('trnorm', dv <= TOL, dict(sig, kind='valid_input_changed'), lambda: '%s: valid input changed by %.3g' % (what(), dv))
     ctx.cell('trnorm', api, T.shape[0], core.band(ref.rot_residual(R), lo=-17))
@@ -320,6 +320,24 @@ def run_twist(ctx, p):
             return
         for s_, o_, a_ in zip(Ss, out.data, again.data):
             judge_unittwist(ctx, api, s_, o_, a_)
+        # the same object after its values were replaced in place (item assignment, reverse): unit describes what it holds now
+        try:
+            T = C(Ss)
+            T.unit
+            new = [np.asarray(s_, dtype=np.float64)[::-1] * 1.5 if C is sm.Twist3 else np.r_[s_[1], s_[0], s_[2]] * 1.5 for s_ in Ss]
+            new = [n_ for n_ in new if np.linalg.norm(n_[-(3 if C is sm.Twist3 else 1):]) > 1e-6] or None
+            if new and len(new) == len(Ss):
+                for i_, n_ in enumerate(new):
+                    T[i_] = C(n_)
+                T.reverse()
+                out2 = T.unit
+                if len(out2) == len(new):
+                    for s_, o_ in zip(new[::-1], out2.data):
+                        judge_unittwist(ctx, api + ' (after item assignment)', s_, o_, None)
+                else:
+                    ctx.bad('unittwist', dict(api=api, kind='wrong_type_or_length', after='item assignment'), '%s after item assignment: %d values for %d' % (api, len(out2), len(new)))
+        except Exception as e:
+            ctx.bad('unittwist', dict(api=api, kind='raised', exc=type(e).__name__, after='item assignment'), '%s after item assignment raised %r' % (api, e))
         ctx.cell('unittwist_multi', api, len(Ss), ''.join(sorted(set('p' if np.linalg.norm(s_[-(3 if C is sm.Twist3 else 1):]) == 0 else 'r' for s_ in Ss))))
         return
     Sv = np.asarray(p['S'], dtype=np.float64)
@@ -415,6 +433,9 @@ def perturb(rng, T, n):
         T[rng.integers(n), rng.integers(n)] += gen.sign(rng) * mag
     else:
         T[:n, :n] += rng.normal(size=(n, n)) * mag
+    if T.shape[0] == n + 1 and rng.random() < 0.3:
+        # a rigid-motion matrix that is "nearly valid" in its last row too (an estimated or averaged matrix: noise on all entries)
+        T[n, :] += rng.normal(size=n + 1) * mag
     return T
 
 
@@ -438,6 +459,8 @@ def run(ctx):
     for _ in range(ctx.scale(1200, 20000)):
         c = ['SO2', 'SE2', 'SO3', 'SE3'][rng.integers(4)]
         m = int(rng.integers(1, 4))
+        if rng.random() < 0.06:
+            m = int([8, 9, 16, 17, 32, 33, 40, 64, 100][rng.integers(9)])        # many values (a batch path would show here)
         mk = {'SO2': lambda: perturb(rng, gen.so2(rng), 2), 'SE2': lambda: perturb(rng, gen.se2(rng, hi=1e3), 2),
               'SO3': lambda: perturb(rng, gen.so3(rng), 3), 'SE3': lambda: perturb(rng, gen.se3(rng, hi=1e3), 3)}[c]
         drive(RUNNERS, ctx, 'pose_norm', dict(cls=c, T=[mk() for _ in range(m)]))
